@@ -1,5 +1,5 @@
 //! C01 harness: completeness of the STARK prover/verifier pair over the parametric AIR family (`wf_harness::airfam`).
-//!   c01 corr <seed> <n> <group>      -> lines "<case> => <impl result>"; groups: opts tinfo ctx fri
+//!   c01 corr <seed> <n> <group>      -> lines "<case> => <impl result>"; groups: opts tinfo ctx fri deep deeplag lagshape
 //!        (shape-level admissibility: what the real constructors accept / panic on, #composition columns, #FRI layers)
 //!   c01 falsify <seed> <n>           -> completeness falsifier: JSON failure records, then "evaluations=<n> failures=<k>"
 //!   c01 replay '<json case>'         -> runs one case, prints its outcome (exit 0 always)
@@ -1489,6 +1489,134 @@ fn corr_deep(r: &mut Rng, n: usize, out: &mut Vec<String>) {
     }
 }
 
+// ------------------------------------------------------------------------------------------------ algebraic correspondence (group `deeplag`)
+// The Lagrange-kernel DEEP term: the REAL DeepCompositionPoly::add_trace_polys on a TracePolyTable whose auxiliary segment ends in a kernel
+// column (add_aux_segment(.., Some(idx)), DeepCompositionCoefficients.lagrange = Some(cc)) and the REAL DeepComposer::compose_trace_columns with
+// the Lagrange OOD frame, against deep_trace + deep_lag / v_trace_lag of coq/Model/StarkLagrange.v; E = base field or its quadratic extension.
+fn ehx<B: Fx, E: FieldElement<BaseField = B>>(e: &E) -> String {
+    E::slice_as_base_elements(std::slice::from_ref(e)).iter().map(|b| b.hx()).collect::<Vec<_>>().join(".")
+}
+fn ehxs<B: Fx, E: FieldElement<BaseField = B>>(v: &[E]) -> String { if v.is_empty() { "-".into() } else { v.iter().map(|e| ehx::<B, E>(e)).collect::<Vec<_>>().join(",") } }
+fn ernd<B: Fx, E: FieldElement<BaseField = B>>(r: &mut Rng) -> E {
+    let bs: Vec<B> = (0..E::EXTENSION_DEGREE).map(|_| B::rnd(r)).collect();
+    E::slice_from_base_elements(&bs)[0]
+}
+
+fn corr_deeplag_one<B: Fx, E: FieldElement<BaseField = B>>(r: &mut Rng, log_n: u32, blowup: usize, mw: usize, aw: usize, kind: u64, out: &mut Vec<String>) {
+    use prover_src::composer::DeepCompositionPoly;
+    use verifier_src::composer::DeepComposer;
+    use winter_air::{proof::Table, DeepCompositionCoefficients};
+    use winter_math::{fft, polynom};
+    let n = 1usize << log_n;
+    let v = log_n as usize;
+    let mains: Vec<Vec<B>> = (0..mw).map(|c| (0..n).map(|i| match (kind + c as u64) % 3 { 0 => B::rnd(r), 1 => if i == 0 { B::rnd(r) } else { B::ZERO }, _ => if i <= 2 { B::rnd(r) } else { B::ZERO } }).collect()).collect();
+    let auxs: Vec<Vec<E>> = (0..aw).map(|c| (0..n).map(|i| match (kind + c as u64) % 4 { 3 => if i <= 1 { ernd::<B, E>(r) } else { E::ZERO }, _ => ernd::<B, E>(r) }).collect()).collect();
+    let g = B::get_root_of_unity(log_n);
+    // the kernel polynomial: the interpolant of the HONEST kernel column for random r (kind even), an arbitrary polynomial (kind odd: the DEEP term
+    // does not depend on honesty), a low-degree one (kind = 5)
+    let lp: Vec<E> = if kind % 2 == 0 {
+        let rr: Vec<E> = (0..v).map(|_| ernd::<B, E>(r)).collect();
+        let mut col = lagrange_col(&rr, n);
+        let inv_tw = fft::get_inv_twiddles::<B>(n);
+        fft::interpolate_poly(&mut col, &inv_tw);
+        col
+    } else if kind == 5 { (0..n).map(|i| if i <= 1 { ernd::<B, E>(r) } else { E::ZERO }).collect() } else { (0..n).map(|_| ernd::<B, E>(r)).collect() };
+    let z: E = ernd::<B, E>(r);
+    let lcc: E = ernd::<B, E>(r);
+    let gam: Vec<E> = (0..mw + aw).map(|_| ernd::<B, E>(r)).collect();
+    let lde = n * blowup;
+    let g_lde = B::get_root_of_unity(lde.ilog2());
+    let mut positions: Vec<usize> = (0..4.min(lde)).map(|_| r.below(lde as u64) as usize).collect();
+    positions.sort_unstable(); positions.dedup();
+    let xs: Vec<B> = positions.iter().map(|&p| B::GENERATOR * g_lde.exp((p as u64).into())).collect();
+    let case = format!("deeplag {} {} {} {} z={} g={} cc={} G {} T {} A {} L {} X {}", B::NAME, E::EXTENSION_DEGREE, n, v, ehx::<B, E>(&z), g.hx(), ehx::<B, E>(&lcc), ehxs::<B, E>(&gam),
+        mains.iter().map(|p| hxs(p)).collect::<Vec<_>>().join(";"), if auxs.is_empty() { "-".to_string() } else { auxs.iter().map(|p| ehxs::<B, E>(p)).collect::<Vec<_>>().join(";") }, ehxs::<B, E>(&lp), hxs(&xs));
+    let res = catch(AssertUnwindSafe(|| {
+        let domain = StarkDomain::from_twiddles(fft::get_twiddles::<B>(n), blowup, B::GENERATOR);
+        let mk_tp = || { let mut tp = TracePolyTable::<E>::new(ColMatrix::new(mains.clone())); let mut a = auxs.clone(); a.push(lp.clone()); tp.add_aux_segment(ColMatrix::new(a), Some(aw)); tp };
+        let tp = mk_tp();
+        let ood = tp.get_ood_frame(z);
+        let ood2 = mk_tp().get_ood_frame(z);
+        let lf: Vec<E> = ood.lagrange_kernel_frame().expect("lagrange frame").inner().to_vec();
+        let mut d = DeepCompositionPoly::new(z, DeepCompositionCoefficients { trace: gam.clone(), constraints: vec![], lagrange: Some(lcc) });
+        d.add_trace_polys(tp, ood);
+        let deg = d.degree();
+        let evals = d.evaluate(&domain);
+        let pe: Vec<E> = positions.iter().map(|&p| evals[p]).collect();
+        // the verifier's recomputation from the opened rows
+        let mut spec = Spec::simple(mw, log_n, 1, 1); spec.aux_width = aw; spec.aux_rands = 1;
+        let x = X { lagx: true, rows: 0, aux: 0, first: 0, stride: 2 };
+        let air = XAir::<B>::new(x_info(&spec, &x), XPub { fam: PubInputs { spec: spec.clone(), avals: vec![vec![B::ZERO]] }, x, seq: vec![] }, ProofOptions::new(1, blowup, 0, FieldExtension::None, 2, 0));
+        let composer = DeepComposer::<E>::new(&air, &positions, z, DeepCompositionCoefficients { trace: gam.clone(), constraints: vec![], lagrange: Some(lcc) });
+        let mrows: Vec<B> = xs.iter().flat_map(|&x| mains.iter().map(move |p| polynom::eval(p, x)).collect::<Vec<_>>()).collect();
+        let mut tb = Vec::new(); winter_utils::Serializable::write_into(&mrows, &mut tb);
+        let mtab = Table::<B>::from_bytes(&tb[tb.len() - mrows.len() * B::ELEMENT_BYTES..], xs.len(), mw).unwrap();
+        let arows: Vec<E> = xs.iter().flat_map(|&x| auxs.iter().chain(std::iter::once(&lp)).map(move |p| polynom::eval(p, E::from(x))).collect::<Vec<_>>()).collect();
+        let mut ab = Vec::new(); winter_utils::Serializable::write_into(&arows, &mut ab);
+        let atab = Table::<E>::from_bytes(&ab[ab.len() - arows.len() * E::ELEMENT_BYTES..], xs.len(), aw + 1).unwrap();
+        let vt = composer.compose_trace_columns(mtab, Some(atab), ood2.main_frame(), ood2.aux_frame(), ood2.lagrange_kernel_frame());
+        format!("deg={} lf={} evals={} vtrace={}", deg, ehxs::<B, E>(&lf), ehxs::<B, E>(&pe), ehxs::<B, E>(&vt))
+    }));
+    out.push(format!("{} => {}", case, res.unwrap_or_else(|m| format!("panic:{}", clip(&m)))));
+}
+
+fn corr_deeplag(r: &mut Rng, n: usize, out: &mut Vec<String>) {
+    use winter_math::fields::QuadExtension;
+    type B62 = f62::BaseElement; type B64 = f64::BaseElement; type B128 = f128::BaseElement;
+    for i in 0..n {
+        let log_n = [3u32, 4, 6][if i % 12 == 11 { 2 } else { i % 2 }];
+        let blowup = *r.pick(&[2usize, 4, 8]);
+        let (mw, aw) = (1 + r.below(2) as usize, 1 + r.below(3) as usize);
+        let kind = (i as u64 / 5) % 6;
+        match i % 5 {
+            0 => corr_deeplag_one::<B64, B64>(r, log_n, blowup, mw, aw, kind, out), 1 => corr_deeplag_one::<B64, QuadExtension<B64>>(r, log_n, blowup, mw, aw, kind, out),
+            2 => corr_deeplag_one::<B62, B62>(r, log_n, blowup, mw, aw, kind, out), 3 => corr_deeplag_one::<B62, QuadExtension<B62>>(r, log_n, blowup, mw, aw, kind, out),
+            _ => corr_deeplag_one::<B128, B128>(r, log_n, blowup, mw, aw, kind, out),
+        }
+    }
+}
+
+/// group `lagshape`: the shape predicates of the Lagrange model on the Lagrange members the falsifier proves (X family with a kernel column):
+/// what the real constructors build for the member (AirContext::new_multi_segment with Some(idx) + set_num_transition_exemptions), the number of rows
+/// of the real LagrangeKernelEvaluationFrame, and the outcome of actually proving and verifying the member — against the model's
+/// ctx_model / lag_pts / lag_new / lag_eval-defined / (v + 1 < n) guards of prove_lag, whose verdict is "run=ok" when all of them hold.
+fn corr_lagshape(r: &mut Rng, n: usize, out: &mut Vec<String>) {
+    type B = f64::BaseElement;
+    let mut done = 0;
+    let mut tries = 0;
+    while done < n && tries < n * 40 {
+        tries += 1;
+        let shape = X_SHAPES[1 + r.below(3) as usize];
+        let e = 1 + r.below(3) as usize;
+        let rep = r.below(12) as usize;
+        let rows = r.below(3) as u8;
+        let c = x_cell_case(r, shape, true, e, rows, rep);
+        if !admissible(&c) { continue; }
+        let (s, x) = (c.spec.clone(), c.x.unwrap());
+        let (md, mut ad) = match degrees_of(&s) { Some(d) => d, None => continue };
+        if x.aux == 2 { ad.push(TransitionConstraintDegree::new(1)); }
+        let dtok = |c: usize| -> String { if s.hold[c] || s.rot_of(c) > 0 { "1".into() } else { match s.per_index(c) { Some(i) => format!("{}:{}", s.degs[c], s.periodic[i]), None => format!("{}", s.degs[c]) } } };
+        let mds: Vec<String> = (0..s.width).map(dtok).collect();
+        let ads: Vec<String> = (0..ad.len()).map(|j| if j == 0 { "2".to_string() } else { "1".to_string() }).collect();
+        let _ = md;
+        let naa = s.aux_width + s.aux_assert_last as usize + (x.aux != 0) as usize;
+        let case = format!("lagshape {} {} {} {} {} {} {} {} M {} A {}", s.log_n, s.width, x_aux_total(&s, &x), s.aux_rands, c.opts.blowup, s.assertions.len(), naa, s.exemptions, mds.join(" "), ads.join(" "));
+        let opts = make_opts(&c.opts).unwrap();
+        let ctx = catch(AssertUnwindSafe(|| {
+            let air = XAir::<B>::new(x_info(&s, &x), XPub { fam: PubInputs { spec: s.clone(), avals: vec![] }, x, seq: vec![] }, opts.clone());
+            let k = air.context();
+            let fr = winter_air::LagrangeKernelEvaluationFrame::<B>::from_lagrange_kernel_column_poly(&vec![B::ONE; s.n()], B::new(12345));
+            format!("ok ce={} cols={} lde={} ex={} lagidx={} frame={}", k.ce_domain_size(), k.num_constraint_composition_columns(), k.lde_domain_size(), k.num_transition_exemptions(),
+                k.lagrange_kernel_aux_column_idx().map(|i| i as i64).unwrap_or(-1), fr.num_rows())
+        })).unwrap_or_else(|_| "panic".into());
+        let run = run_case(&c);
+        // in a debug build a predicted degree diagnostic is the open finding, not a verdict of the model
+        let run = if known_diagnostic(&c, &run).is_some() { "ok".to_string() } else { run };
+        out.push(format!("{} => {} run={}", case, ctx, run));
+        done += 1;
+    }
+}
+
 /// diagnostic: what happens outside the well-formedness condition (never counted as failure)
 fn probe(r: &mut Rng, n: usize) {
     let mut seen = std::collections::BTreeMap::<String, (usize, String)>::new();
@@ -1525,6 +1653,8 @@ fn main() {
                 "ctx" => corr_ctx(&mut r, n, &mut out),
                 "fri" => corr_fri(&mut r, n, &mut out),
                 "deep" => corr_deep(&mut r, n, &mut out),
+                "deeplag" => corr_deeplag(&mut r, n, &mut out),
+                "lagshape" => corr_lagshape(&mut r, n, &mut out),
                 g => { eprintln!("unknown group {}", g); std::process::exit(2); }
             }
             let mut s = out.join("\n"); s.push('\n'); print!("{}", s);
